@@ -31,6 +31,8 @@ type Facts struct {
 	GlobalWrites   []GWrite            `json:"globalWrites"`   // every syntactic write / address-taking / method call on a package-level var, with the enclosing function
 	GlobalRefs     []GRef              `json:"globalRefs"`     // number of identifier occurrences of each package-level var per function (reads and writes)
 	Inits          []string            `json:"inits"`          // init functions and package-level initialisers that call functions: "file:func"
+	Validation     []RejectRule        `json:"validation"`     // the argument-validation chain of the redact Run closure, symbolically executed: ordered reject conditions
+	ValidationUnk  []string            `json:"validationUnknown"` // constructs of the chain the translator could not express (a translator failure)
 	Missing        []string            `json:"missing"`
 	Fingerprints   map[string]string   `json:"fingerprints"`   // function name -> size of its printed body (evidence only)
 }
@@ -65,6 +67,19 @@ type Use struct {
 type FlagDef struct {
 	Name, Short, Var, Kind string
 }
+// BX is a boolean expression over the presence atoms of the command line.
+type BX struct {
+	Op   string `json:"op"` // atom | not | and | or | true | false
+	Name string `json:"name,omitempty"`
+	A    *BX    `json:"a,omitempty"`
+	B    *BX    `json:"b,omitempty"`
+}
+
+type RejectRule struct {
+	Cond *BX    `json:"cond"`
+	Pos  string `json:"pos"`
+}
+
 type SetterCall struct {
 	Setter string `json:"setter"`
 	Arg    string `json:"arg"`
@@ -440,6 +455,7 @@ func main() {
 			}
 		}
 		walk(runLit.Body.List, 0)
+		validationChain(runLit, &facts)
 	}
 
 	for _, nm := range []string{"RedactMongoLog", "redactCommand", "redactOperation", "redactNamespace", "redactNamespaceFields", "redactPipelineStage", "redactQueryValues", "redactArrayValuesWithKey", "redactScalarValue",
@@ -643,4 +659,232 @@ func globalState(files []*ast.File, facts *Facts) {
 	}
 	sort.Slice(facts.Globals, func(i, j int) bool { return facts.Globals[i].Name < facts.Globals[j].Name })
 	sort.Strings(facts.Inits)
+}
+
+
+// ---------------------------------------------------------------------------------------------
+// The argument-validation chain of `redact` (everything in the Run closure before the first
+// Set...() call), symbolically executed over presence atoms: which flag combinations reach an
+// os.Exit.  The result is an ordered list of reject conditions; the first that holds rejects.
+
+func bAtom(n string) *BX { return &BX{Op: "atom", Name: n} }
+func bNot(a *BX) *BX {
+	if a.Op == "true" {
+		return &BX{Op: "false"}
+	}
+	if a.Op == "false" {
+		return &BX{Op: "true"}
+	}
+	return &BX{Op: "not", A: a}
+}
+func bAnd(a, b *BX) *BX {
+	if a.Op == "true" {
+		return b
+	}
+	if b.Op == "true" {
+		return a
+	}
+	return &BX{Op: "and", A: a, B: b}
+}
+func bOr(a, b *BX) *BX {
+	if a.Op == "false" {
+		return b
+	}
+	if b.Op == "false" {
+		return a
+	}
+	return &BX{Op: "or", A: a, B: b}
+}
+func bIte(c, t, e *BX) *BX { return bOr(bAnd(c, t), bAnd(bNot(c), e)) }
+
+// "is set" meaning of the flag variables of main.go
+var presenceAtoms = map[string]string{
+	"redactedFieldsRegexp": "regexp", "eagerRedactionPaths": "fieldNames", "atlasLogStartDate": "start", "atlasLogEndDate": "end_",
+	"atlasProjectId": "project", "atlasClusterName": "cluster", "atlasPublicKey": "pub", "atlasPrivateKey": "priv",
+	"outputFile": "out", "encrypt": "encrypt", "stdinHasData": "stdin", "args": "file",
+}
+
+type symEnv struct {
+	set   map[string]*BX // variable -> "is set / is true"
+	facts *Facts
+}
+
+func (e *symEnv) unknown(n ast.Node, what string) *BX {
+	var sb strings.Builder
+	printer.Fprint(&sb, fset, n)
+	e.facts.ValidationUnk = append(e.facts.ValidationUnk, what+": "+sb.String()+" @"+pos(n))
+	return &BX{Op: "false"}
+}
+
+func (e *symEnv) isSet(x ast.Expr) *BX {
+	switch t := x.(type) {
+	case *ast.Ident:
+		if v, ok := e.set[t.Name]; ok {
+			return v
+		}
+		if a, ok := presenceAtoms[t.Name]; ok {
+			return bAtom(a)
+		}
+	case *ast.CallExpr:
+		if callName(t) == "os.Getenv" && len(t.Args) == 1 {
+			if lit, ok := strLit(t.Args[0]); ok && (lit == "ATLAS_PUBLIC_KEY" || lit == "ATLAS_PRIVATE_KEY") {
+				return bAtom("env")
+			}
+		}
+		if id, ok := t.Fun.(*ast.Ident); ok && id.Name == "len" && len(t.Args) == 1 {
+			return e.isSet(t.Args[0])
+		}
+	case *ast.ParenExpr:
+		return e.isSet(t.X)
+	}
+	return e.unknown(x, "value")
+}
+
+func isZeroLit(x ast.Expr) bool {
+	if lit, ok := strLit(x); ok && lit == "" {
+		return true
+	}
+	if bl, ok := x.(*ast.BasicLit); ok && bl.Kind == token.INT && bl.Value == "0" {
+		return true
+	}
+	return false
+}
+
+func (e *symEnv) cond(x ast.Expr) *BX {
+	switch t := x.(type) {
+	case *ast.ParenExpr:
+		return e.cond(t.X)
+	case *ast.UnaryExpr:
+		if t.Op == token.NOT {
+			return bNot(e.cond(t.X))
+		}
+	case *ast.BinaryExpr:
+		switch t.Op {
+		case token.LAND:
+			return bAnd(e.cond(t.X), e.cond(t.Y))
+		case token.LOR:
+			return bOr(e.cond(t.X), e.cond(t.Y))
+		case token.NEQ, token.EQL, token.GTR:
+			// X != "" / X != 0 / len(X) > 0 / len(args) == 1 / X == "" / X == 0
+			var base *BX
+			if isZeroLit(t.Y) {
+				base = e.isSet(t.X)
+				if t.Op == token.EQL {
+					return bNot(base)
+				}
+				return base
+			}
+			if bl, ok := t.Y.(*ast.BasicLit); ok && bl.Kind == token.INT && bl.Value == "1" && t.Op == token.EQL {
+				if c, ok := t.X.(*ast.CallExpr); ok {
+					if id, ok := c.Fun.(*ast.Ident); ok && id.Name == "len" && len(c.Args) == 1 {
+						if a, ok := c.Args[0].(*ast.Ident); ok && a.Name == "args" {
+							return bAtom("file")
+						}
+					}
+				}
+			}
+		}
+	case *ast.Ident:
+		if t.Name == "true" {
+			return &BX{Op: "true"}
+		}
+		if t.Name == "false" {
+			return &BX{Op: "false"}
+		}
+		return e.isSet(t)
+	}
+	return e.unknown(x, "condition")
+}
+
+func containsExit(stmts []ast.Stmt) bool {
+	for _, st := range stmts {
+		if es, ok := st.(*ast.ExprStmt); ok {
+			if c, ok := es.X.(*ast.CallExpr); ok && callName(c) == "os.Exit" {
+				return true
+			}
+		}
+	}
+	return false
+}
+
+// exec runs the statements under path condition pc; returns false when the chain ends (first Set...() call)
+func (e *symEnv) exec(stmts []ast.Stmt, pc *BX) bool {
+	for _, st := range stmts {
+		switch s := st.(type) {
+		case *ast.ExprStmt:
+			if c, ok := s.X.(*ast.CallExpr); ok {
+				nm := callName(c)
+				if strings.HasPrefix(nm, "Set") {
+					return false
+				}
+				if nm == "os.Exit" {
+					e.facts.Validation = append(e.facts.Validation, RejectRule{Cond: pc, Pos: pos(c)})
+				}
+			}
+		case *ast.IfStmt:
+			if s.Init != nil {
+				e.unknown(s, "if with init statement")
+			}
+			c := e.cond(s.Cond)
+			if !e.exec(s.Body.List, bAnd(pc, c)) {
+				return false
+			}
+			switch el := s.Else.(type) {
+			case *ast.BlockStmt:
+				if !e.exec(el.List, bAnd(pc, bNot(c))) {
+					return false
+				}
+			case *ast.IfStmt:
+				if !e.exec([]ast.Stmt{el}, bAnd(pc, bNot(c))) {
+					return false
+				}
+			}
+		case *ast.AssignStmt:
+			// tracked: x := y / x = y / x = os.Getenv(..) / b := <bool expr>; everything else is ignored unless it writes a tracked name
+			if len(s.Lhs) == 1 && len(s.Rhs) == 1 {
+				if id, ok := s.Lhs[0].(*ast.Ident); ok {
+					switch id.Name {
+					case "publicKey", "privateKey":
+						old, had := e.set[id.Name]
+						nv := e.isSet(s.Rhs[0])
+						if had && pc.Op != "true" {
+							nv = bIte(pc, nv, old)
+						}
+						e.set[id.Name] = nv
+					case "atlasParamsSet":
+						e.set[id.Name] = e.cond(s.Rhs[0])
+					case "inputFile", "useStdin", "stdinHasData":
+					default:
+						if _, tracked := presenceAtoms[id.Name]; tracked {
+							e.unknown(s, "assignment to a flag variable inside the validation chain")
+						}
+					}
+				}
+			} else {
+				for _, l := range s.Lhs {
+					if id, ok := l.(*ast.Ident); ok {
+						if _, tracked := presenceAtoms[id.Name]; tracked && id.Name != "args" {
+							e.unknown(s, "assignment to a flag variable inside the validation chain")
+						}
+					}
+				}
+			}
+		case *ast.DeclStmt:
+		case *ast.ReturnStmt:
+			e.facts.Validation = append(e.facts.Validation, RejectRule{Cond: pc, Pos: pos(s)})
+			e.unknown(s, "return inside the validation chain (a job left without exit status 1)")
+		default:
+			e.unknown(st, "statement")
+		}
+	}
+	return true
+}
+
+func validationChain(runLit *ast.FuncLit, facts *Facts) {
+	e := &symEnv{set: map[string]*BX{}, facts: facts}
+	// path conditions inside exec are RELATIVE to the enclosing ifs; assignments under a condition use ite with it.
+	e.exec(runLit.Body.List, &BX{Op: "true"})
+	if len(facts.Validation) == 0 {
+		facts.Missing = append(facts.Missing, "validation chain of the redact Run closure")
+	}
 }
